@@ -175,6 +175,8 @@ def canon(t, key=None):
         if key == "week_mask":
             l = sorted(l, key=repr)
         return l
+    if isinstance(t, str):
+        return of_python(t)           # a string spelling a date is the same leaf on both sides
     return t
 
 
